@@ -72,6 +72,7 @@ pub struct Inv {
     pub result: Option<Val>,
     pub aborted: bool,
     pub during_refresh: bool,
+    pub refresh_id: u64,
 }
 
 #[derive(Clone, Debug)]
@@ -109,6 +110,8 @@ pub struct Harness {
     pub st: Mutex<HState>,
     pub epoch: AtomicU64,
     pub in_refresh: AtomicBool,
+    /// number of `refresh` calls started so far
+    pub refresh_id: std::sync::atomic::AtomicU64,
 }
 
 impl Harness {
@@ -119,6 +122,7 @@ impl Harness {
             st: Mutex::new(HState::default()),
             epoch: AtomicU64::new(0),
             in_refresh: AtomicBool::new(false),
+            refresh_id: std::sync::atomic::AtomicU64::new(0),
         })
     }
 
@@ -321,6 +325,7 @@ impl NodeExec {
                 result: None,
                 aborted: false,
                 during_refresh: h.in_refresh.load(Ordering::SeqCst),
+                refresh_id: h.refresh_id.load(Ordering::SeqCst),
             });
             st.events.push(Ev::Enter(id));
             let k = {
